@@ -85,6 +85,7 @@ require (
 	github.com/orsinium-labs/enum v1.4.0 // indirect
 	github.com/pancsta/cview v1.5.23 // indirect
 	github.com/parquet-go/parquet-go v0.24.0 // indirect
+	github.com/patrickmn/go-cache v2.1.0+incompatible // indirect
 	github.com/pierrec/lz4/v4 v4.1.22 // indirect
 	github.com/pkg/errors v0.9.1 // indirect
 	github.com/planetscale/vtprotobuf v0.6.1-0.20240319094008-0393e58bdf10 // indirect
